@@ -98,12 +98,13 @@ pub fn world(ch: &mut Chooser) -> World {
         "( Low , High , Level#High )",
         "( Level#Low , High , Low )",
         "( Level#Low , Level#High )",
+        "( Low , High , Low , Mid , Low )",
     ];
-    let e = ch.pick("enum", &["Low,High", "Low", "Low,Mid,High", "dup:Low,Low", "dup-case:Low,High,LOW", "dup-nonadjacent:Low,High,Low", "dup-typed-second:Low,High,Level#High", "dup-typed-first:Level#Low,High,Low", "typed:Level#Low,Level#High"], 1);
-    if matches!(e, 3..=7) {
+    let e = ch.pick("enum", &["Low,High", "Low", "Low,Mid,High", "dup:Low,Low", "dup-case:Low,High,LOW", "dup-nonadjacent:Low,High,Low", "dup-typed-second:Low,High,Level#High", "dup-typed-first:Level#Low,High,Low", "typed:Level#Low,Level#High", "dup-thrice:Low,High,Low,Mid,Low"], 1);
+    if matches!(e, 3..=7 | 9) {
         w.violated.insert("P0005");
     }
-    let has_high = matches!(e, 0 | 2 | 4 | 5 | 6 | 7 | 8);
+    let has_high = matches!(e, 0 | 2 | 4 | 5 | 6 | 7 | 8 | 9);
     let sub_opts = ["( -10 .. 10 )", "( 0 .. 1 )", "( -10 .. -5 )", "( 10 .. -10 )", "( 5 .. 5 )", "( -5 .. -10 )", "( 1 .. 0 )"];
     let sb = ch.pick("subrange", &["-10..10", "0..1", "-10..-5", "inv:10..-10", "inv:5..5", "inv:-5..-10", "inv:1..0"], 1);
     if sb >= 3 {
@@ -119,9 +120,10 @@ pub fn world(ch: &mut Chooser) -> World {
         "x : INT ; lv : Level := High ;",
         "x : INT ; lv : Level := Nope ;",
         "x : INT ; m : Missing ;",
+        "x : INT ; y : INT ; x : BOOL ; z : INT ; x : INT ;",
     ];
-    let st = ch.pick("struct", &["x,lv", "x", "x,y,z", "dup:x,x", "dup-case:x,X", "dup-nonadjacent:x,y,x", "lv:=High", "lv:=undeclared-value", "element-of-unknown-type"], 1);
-    if matches!(st, 3 | 4 | 5) {
+    let st = ch.pick("struct", &["x,lv", "x", "x,y,z", "dup:x,x", "dup-case:x,X", "dup-nonadjacent:x,y,x", "lv:=High", "lv:=undeclared-value", "element-of-unknown-type", "dup-thrice:x,y,x,z,x"], 1);
+    if matches!(st, 3 | 4 | 5 | 9) {
         w.violated.insert("P0003");
     }
     if st == 7 || (st == 6 && !has_high) {
@@ -152,7 +154,7 @@ pub fn world(ch: &mut Chooser) -> World {
     }
     types += " END_TYPE";
     let mut tdecl = d("Level", "type", &types);
-    tdecl.faulty = matches!(e, 3..=7) || sb >= 3 || st >= 3 || arr == 2 || alias_k >= 3 || ((st == 6 || alias_k == 2) && !has_high);
+    tdecl.faulty = matches!(e, 3..=7 | 9) || sb >= 3 || st >= 3 || arr == 2 || alias_k >= 3 || ((st == 6 || alias_k == 2) && !has_high);
 
     // ---------------- callee and function
     let callee = d(
